@@ -786,6 +786,10 @@ func callersGuarantee(r *core.Run, f *ScopeFunc, x *ast.IndexExpr) (string, bool
 		}
 	}
 	if need == 0 {
+		// dst[i] with i a range index over another parameter src: every caller made dst with len(src)
+		if why, ok := callersMadeWithLen(r, f, fd, x); ok {
+			return why, true
+		}
 		return "", false
 	}
 	root := rootIdentOf(x.X)
@@ -961,4 +965,74 @@ func tableAtCallers(r *core.Run, table string, sc *Scope, f *ScopeFunc, o *core.
 	}
 	o.Status += fmt.Sprintf(" [recorded at the %d call site(s) of %s, where this expression stood before it was moved into the helper]", len(keys), fd.Name.Name)
 	return true
+}
+
+// callersMadeWithLen: X[i] where X is a parameter, i ranges over another
+// parameter S of the same unexported function, and at every call of the
+// function in the package the argument for X is known to have been made with
+// the length of the argument for S (neither is reassigned in the function).
+func callersMadeWithLen(r *core.Run, f *ScopeFunc, fd *ast.FuncDecl, x *ast.IndexExpr) (string, bool) {
+	info := f.Pkg.TypesInfo
+	xid, ok := core.Unparen(x.X).(*ast.Ident)
+	iid, ok2 := core.Unparen(x.Index).(*ast.Ident)
+	if !ok || !ok2 {
+		return "", false
+	}
+	facts := FactsAt(info, f.Body, x)
+	srcName, has := facts.LtLen[iid.Name]
+	if !has {
+		return "", false
+	}
+	pidx := func(name string) int {
+		i := 0
+		for _, fl := range fd.Type.Params.List {
+			for _, nm := range fl.Names {
+				if nm.Name == name {
+					return i
+				}
+				i++
+			}
+		}
+		return -1
+	}
+	dstI, srcI := pidx(xid.Name), pidx(srcName)
+	if dstI < 0 || srcI < 0 || info.Uses[xid] == nil {
+		return "", false
+	}
+	if !stableSince(info, f, x.X, fd.Body.Lbrace, x) || !idxStable(info, f, x.Index, facts.factPos["idx:"+iid.Name], x) {
+		return "", false
+	}
+	self := info.Defs[fd.Name]
+	callers, good, escaped := 0, 0, false
+	core.AllFuncDecls(f.Pkg, func(cfd *ast.FuncDecl) {
+		ast.Inspect(cfd.Body, func(n ast.Node) bool {
+			switch y := n.(type) {
+			case *ast.CallExpr:
+				fn := core.CalleeFunc(info, y)
+				if fn == nil || types.Object(fn) != self || len(y.Args) <= dstI || len(y.Args) <= srcI {
+					return true
+				}
+				callers++
+				cf := FactsAt(info, cfd.Body, y)
+				if cf.MakeLen[core.ExprStr(y.Args[dstI])] == core.ExprStr(y.Args[srcI]) {
+					good++
+				}
+			case *ast.Ident:
+				if info.Uses[y] == self {
+					if p := core.PathTo(cfd.Body, y); len(p) >= 2 {
+						if c, isCall := p[len(p)-2].(*ast.CallExpr); !isCall || c.Fun != ast.Expr(y) {
+							if s, isSel := p[len(p)-2].(*ast.SelectorExpr); !isSel || s.Sel != y {
+								escaped = true
+							}
+						}
+					}
+				}
+			}
+			return true
+		})
+	})
+	if callers > 0 && callers == good && !escaped {
+		return fmt.Sprintf("%s ranges over parameter %s and every one of the %d call(s) of %s passes for %s a slice made with the length of the argument for %s", iid.Name, srcName, callers, fd.Name.Name, xid.Name, srcName), true
+	}
+	return "", false
 }
